@@ -24,6 +24,9 @@ MODES = ["r", "r+", "a", "w", "w-", "x"]
 LIFE_OPS = ("open", "close", "commit", "create_patch", "discard", "merge", "check_history", "apply_tail")
 
 
+EXTRA_OPS = {}  # op kind -> handler(world, op); filled by other engines (sites)
+
+
 class SimRunaway(BaseException):
     """An operation exceeded its step bound (liveness violation, not a crash)."""
 
@@ -399,7 +402,7 @@ class World:
         r.inflight = None
         self.save_carry()
 
-    def post_commit(self, r, opened=True):
+    def post_commit(self, r, opened=True, shape_only=False):
         """Book-keeping after the SUT acknowledged a commit of the newest container."""
         r.disk[-1]["committed"] = True
         n = r.ncommitted()
@@ -411,7 +414,7 @@ class World:
         self.containers_seen = max(self.containers_seen, len(r.disk))
         if r.cls == "mf":
             if opened:
-                self.check_manifest(r)
+                self.check_manifest(r, shape_only=shape_only)
             else:
                 self.check_manifest_closed(r)
         self.check_merge_descendants(r)
@@ -458,7 +461,7 @@ class World:
             r.merged_from = d["merged_from"]
             r.truncating = d.get("truncating", False)
 
-    def check_manifest(self, r):
+    def check_manifest(self, r, shape_only=False):
         """C10 (shared): manifest on disk matches hash+uuid in the user block; skeleton current."""
         from metador_core.ih5.manifest import IH5Manifest, IH5UBExtManifest
         from metador_core.ih5.skeleton import IH5Skeleton
@@ -478,7 +481,14 @@ class World:
         if mf.manifest_uuid != ext.manifest_uuid:
             raise Violation("C10", "manifest-uuid", "manifest uuid differs from the one in the user block")
         skel = IH5Skeleton.for_record(r.obj)
-        if mf.skeleton != skel:
+        if shape_only:
+            # manifest made on a stub: patch indices of untouched nodes cannot be known there
+            def shape(sk):
+                return {p: (str(n.node_type), sorted(n.attrs)) for p, n in sk.__root__.items()}
+
+            if shape(mf.skeleton) != shape(skel):
+                raise Violation("C10", "manifest-skeleton", "skeleton in the manifest of the stub-made patch differs from the record's paths / node kinds / attribute names")
+        elif mf.skeleton != skel:
             raise Violation("C10", "manifest-skeleton", "manifest skeleton differs from IH5Skeleton.for_record(record)")
         if r.obj.manifest.manifest_uuid != mf.manifest_uuid:
             raise Violation("C10", "manifest-loaded", "record.manifest is not the manifest on disk")
@@ -1039,10 +1049,10 @@ class World:
             out = self.op_merge(op)
         elif k == "check_history":
             out = self.op_check_history(op)
+        elif k in EXTRA_OPS:
+            out = EXTRA_OPS[k](self, op)
         else:
             raise env.HarnessError(f"unknown op {k}")
-        if k != "open":
-            pass
         self.check_protected(f"op {i} {k}")
         self.save_carry()
         if k in LIFE_OPS:
